@@ -699,3 +699,28 @@ def FullMatch {Pat : Type} (matchPat : Matcher Pat) : Prop :=
 
 
 end ActixModel.Route
+
+namespace ActixModel.Route
+
+variable {Pat : Type}
+
+theorem routeList_append {matchPat : Matcher Pat} {req : Req} (ns extra : List (Node Pat)) (st : St)
+    (d : Target) (i : Nat) :
+    routeList matchPat req (ns ++ extra) st d i =
+      match routeList matchPat req ns st d i with
+      | some o => some o
+      | none => routeList matchPat req extra st d (i + ns.length) := by
+  induction ns generalizing i with
+  | nil => simp [routeList]
+  | cons n ns ih =>
+    simp only [List.cons_append, List.length_cons]
+    rw [routeList, routeList]
+    cases accept matchPat req n st i with
+    | some st' => rfl
+    | none =>
+      simp only
+      rw [ih]
+      have : i + 1 + ns.length = i + (ns.length + 1) := by omega
+      rw [this]
+
+end ActixModel.Route
